@@ -44,7 +44,16 @@ impl OpeningHoursExpression {
             return kind == RuleKind::Closed;
         };
 
-        tail.kind == kind && tail.is_constant()
+        if !(tail.kind == kind && tail.is_constant()) {
+            return false;
+        }
+
+        // A fallback rule only applies to days which are not covered by previous rules: it
+        // will always apply only if all previous rules are evaluated to closed.
+        tail.operator != RuleOperator::Fallback
+            || (self.rules.iter())
+                .take_while(|rs| !std::ptr::eq(*rs, tail))
+                .all(|rs| rs.kind == RuleKind::Closed)
     }
 
     /// Convert the expression into a normalized form. It will not affect the meaning of the
